@@ -90,6 +90,8 @@ func (p *poller) addDialer(c *Conn) error {
 			fd,
 			len(p.g.connsUnix),
 		)
+		// the caller gets the error as the dial's outcome.
+		c.onConnected = nil
 		_ = c.closeWithError(err)
 		return err
 	}
